@@ -37,7 +37,7 @@ CHECKS = {
         text="FsRemove.tla states the reference semantics of removal (rm -rf: links are leaves, exclusion protects an entry, what is beneath it and its ancestors) over a sandbox "
              "with an inside tree and an outside region; TLC enumerates every scenario (3700: tree shape x link place x link target class x entry point x pattern), checks the semantics "
              "against OutsideUnchanged / SuccessMeansGone / ExcludedSurvive, and emits the expected tree. Every scenario is materialised on the real filesystem(s), the real entry point "
-             "is called, and a no-follow snapshot of the whole sandbox before/after is judged by TLC (FsRemoveTrace.tla); seeded random larger trees go through the same judgement.",
+             "is called, and a no-follow snapshot of the whole sandbox before/after is judged by TLC (FsRemoveTrace.tla); seeded random larger trees go through the same judgement. Every other excluding removal passes its pattern set after sets that read alike when strung together were used in the same process.",
         note="Trusted: TLC, the Lstat-based snapshot, os.Symlink; link scenarios on the OS backend only.",
         technique="TLA+ reference semantics + TLC exhaustive scenario enumeration; replay on real filesystems; TLC trace validation"),
     "C05": dict(
@@ -46,7 +46,7 @@ CHECKS = {
              "kernel signalling, os/exec's Wait (child dead and pipes closed, or a bounded wait) and the library's reaction to a stop request (kill the child only, or TERM + KILL to the group); "
              "TLC checks AfterReturnNoSurvivor, IsOnFalseAfterwards and the liveness property StopReturns under fairness over every scenario, with three sensitivity configurations that must fail. "
              "Every scenario is emitted and a sample is run as a real process tree of re-executed harness processes through Execute / Start and context / Cancel() / Stop(); return latency, "
-             "survivors in the group (from /proc) and IsOn() are judged by TLC (ProcTreeTrace.tla).",
+             "survivors in the group (from /proc) and IsOn() are judged by TLC (ProcTreeTrace.tla). Stop modes: context cancelled, context ended by its time limit, Cancel(), Stop().",
         note="Trusted: TLC, /proc/<pid>/stat, the kernel's process-group semantics; 'promptly' is a 12 s bound.",
         technique="TLA+ process-tree specification + TLC safety and liveness check; replay as real process trees; TLC trace judgement"),
     "C06": dict(
@@ -81,7 +81,7 @@ CHECKS = {
         text="SafeIO.tla states, per observation of one real call, which clause of the statement it breaks (prefix, at most the maximum, exactly n or an error, too-large refusal, no read started "
              "after the context is done, context kinds, EOF kind); FsCancel.tla models a loop that tests its context once per item and TLC checks that the work after a cancellation is bounded "
              "independently of the remaining work (and is not when the test is removed). TLC enumerates the 3065 scenario classes of the I/O helpers, which run against scripted readers / writers; "
-             "16 context-accepting filesystem entry points are cancelled before the call and after the k-th backend call on trees of 100 and 400 entries on both backends; TLC judges every observation.",
+             "16 context-accepting filesystem entry points are cancelled before the call and after the k-th backend call on trees of 100 and 400 entries on both backends; TLC judges every observation. Contexts end in five ways (cancelled, cancelled with a cause, child of such, ended by the time limit, child of such); RemoveWithPrivileges is an entry point and the force remover of the OS backend is visible to the library.",
         note="Trusted: TLC, the scripted reader (records the context state at every Read), the gate's call counting, B = 32. Known finding: the fan-out of the garbage collection.",
         technique="TLA+ rule specification + TLC-enumerated scenario classes; replay with scripted streams; cancellation sweep at the afero.Fs boundary; TLC trace validation"),
     "C10": dict(
@@ -116,7 +116,7 @@ CHECKS = {
              "appends) and an optional ring buffer with drop accounting; TLC checks ExactlyOnceIntact / EveryMember / DropsAccounted / NoSilentLoss exhaustively for 3 producers x 2 messages "
              "(the shared-lock configuration must violate). Every constructor of utils/logs is then driven in its own process of the -race harness by 2..32 producers sending checksummed "
              "messages on both streams (with concurrent SetLogSource / Append in every second round); the sinks are parsed back and the counts, the reported drops and the race-detector "
-             "reports with utils/logs frames are judged by TLC (LogSinkTrace.tla). LogComposite.tla (composites over one caller-owned member list, Log / Append histories, sensitivity SharedBacking) is replayed through Append and AppendLogger and judged by LogCompositeTrace.tla.",
+             "reports with utils/logs frames are judged by TLC (LogSinkTrace.tla). LogComposite.tla (composites over one caller-owned member list, Log / Append histories, sensitivity SharedBacking) is replayed through Append and AppendLogger and judged by LogCompositeTrace.tla. Every composite of the race-detector runs has a logr-family member.",
         note="Trusted: TLC, the Go race detector as an observation (the Go memory model is not modelled), the harness's goroutine-safe sinks.",
         technique="TLA+ sink/lock/ring specification + TLC exhaustive check; real loggers under the race detector; TLC trace judgement"),
     "C14": dict(
